@@ -86,6 +86,14 @@ func c12SchemaErr(dst any, v url.Values) bool {
 	return schema.NewDecoder().Decode(dst, v) != nil
 }
 
+// c12SchemaErrLoose: getLabelsParams (Prometheus labels / series) ignores keys it does not know since the form also
+// carries match[] (fix 15777af)
+func c12SchemaErrLoose(dst any, v url.Values) bool {
+	dec := schema.NewDecoder()
+	dec.IgnoreUnknownKeys(true)
+	return dec.Decode(dst, v) != nil
+}
+
 func c12LogQLOk(q string) bool { _, err := logql_parser.Parse(q); return err == nil }
 
 var c12Matches = []string{`{a="b"}`, `{a="b", c=~"d.*"}`, `{a="b"} |= "x"`, `{a=`, `bad(`, `{}`, `a`}
@@ -202,7 +210,7 @@ func c12StatusGens() []c12StatusGen {
 					Start string `form:"start"`
 					End   string `form:"end"`
 				}
-				if ferr || c12SchemaErr(&raw, v) {
+				if ferr || c12SchemaErrLoose(&raw, v) {
 					form = "e"
 				}
 			}
@@ -248,7 +256,7 @@ func c12StatusGens() []c12StatusGen {
 					Start string `form:"start"`
 					End   string `form:"end"`
 				}
-				if ferr || c12SchemaErr(&raw, v) {
+				if ferr || c12SchemaErrLoose(&raw, v) {
 					form = "e"
 				}
 			}
